@@ -22,6 +22,17 @@ pub struct Case {
     pub glr: bool,
     pub loc_info: bool,
     pub inputs: Vec<InputTape>,
+    /// the tape is read by `gen::build_rec` (recursive type shapes) instead of `gen::build_ast`
+    #[serde(default)]
+    pub rec: bool,
+}
+
+pub fn spec_of(c: &Case) -> GrammarSpec {
+    if c.rec {
+        gen::build_rec(&c.tape)
+    } else {
+        gen::build_ast(&c.tape)
+    }
 }
 
 fn bcfg(c: &Case) -> BConfig {
@@ -182,8 +193,16 @@ fn gen_cases(seed: u64, batch: usize, ngrammars: usize) -> Vec<Case> {
         let tape = gen::g_ast().new_tree(&mut runner).unwrap().current();
         let inputs = gen::tapes(8..12, 40).new_tree(&mut runner).unwrap().current();
         for glr in [false, true] {
-            v.push(Case { tape: tape.clone(), glr, loc_info: (g + glr as usize) % 2 == 0, inputs: inputs.clone() });
+            v.push(Case { tape: tape.clone(), glr, loc_info: (g + glr as usize) % 2 == 0, inputs: inputs.clone(), rec: false });
         }
+    }
+    // recursive type shapes: the element of a vector / optional refers back to it (boxed
+    // elements, both recursion directions)
+    for g in 0..ngrammars / 2 {
+        let tape = gen::g_rec().new_tree(&mut runner).unwrap().current();
+        let inputs = gen::tapes(8..12, 40).new_tree(&mut runner).unwrap().current();
+        let glr = g % 3 == 2;
+        v.push(Case { tape, glr, loc_info: g % 4 == 1, inputs, rec: true });
     }
     v
 }
@@ -231,7 +250,7 @@ pub fn run(tier: Tier, seed: u64, replay: Option<&Path>) -> RunResult {
         let mut mods: Vec<(String, &Case, String, Vec<String>, Vec<Option<(Vec<String>, usize, Vec<&'static str>)>>)> = vec![];
         for (i, c) in batch.iter().enumerate() {
             st.evaluations += 1;
-            let spec = gen::build_ast(&c.tape);
+            let spec = spec_of(c);
             let text = spec.render();
             // reference generic trees always come from the LR parser (the grammar is deterministic)
             let cfg = Cfg { algo: Algo::LR, ..Cfg::lr() };
